@@ -301,6 +301,10 @@ class Bounds:
         self._inprog.add(key)
         r = self._var(X, node, point, depth)
         self._inprog.discard(key)
+        inv = getattr(self, 'invariants', None)
+        if inv and X in inv and not r.bot:
+            # invariant supplied (and justified) by the client analysis: holds at every point of the function
+            r = meet(r, inv[X])
         self._memo[key] = r
         return r
 
@@ -358,6 +362,25 @@ class Bounds:
                             # x++ : lower bound survives (no wrap assumed for the lower side only when type is wide)
                             prev = self.var(X, node, (b, j), depth + 1)
                             results.append(B(prev.lo, None, bot=prev.bot))
+                        elif op == '-=' and rhs is not None and depth < MAXD:
+                            # x -= e with e >= 0: upper bounds (numeric and symbolic) survive; x -= x % c keeps x >= 0
+                            prev = self.var(X, node, (b, j), depth + 1)
+                            rb = self._ev(rhs, (b, j), depth + 1)
+                            if prev.bot or rb.bot:
+                                results.append(B(bot=True))
+                            elif rb.lo is not None and rb.lo >= 0:
+                                nb = B(None, prev.hi)
+                                import re as _re
+                                tok = _re.compile(r'(?<![\w>.])%s(?![\w])' % _re.escape(X))
+                                nb.ubs = {u for u in prev.ubs if not tok.search(u[1])}
+                                rs = f.s(rhs)
+                                if prev.lo is not None and prev.lo >= 0 and rs.startswith('(%s %% ' % X):
+                                    nb.lo = 0
+                                elif prev.lo is not None and rb.hi is not None:
+                                    nb.lo = prev.lo - rb.hi
+                                results.append(nb)
+                            else:
+                                results.append(B(None, prev.hi, bot=prev.bot))
                         elif op in ('post--', '--', '-=') and depth < MAXD:
                             prev = self.var(X, node, (b, j), depth + 1)
                             results.append(B(None, prev.hi, bot=prev.bot))
@@ -687,6 +710,9 @@ class Bounds:
                             r.slo[f.s(K[1])] = b.lo
                     elif b.hi is not None:
                         r.lo, r.hi = -(b.hi - 1), b.hi - 1
+                elif a.lo is not None and a.lo >= 0:
+                    # C99: the result has the sign of the dividend and |a % b| <= a (b == 0 is undefined behaviour)
+                    r.lo, r.hi = 0, a.hi
             elif op == '&':
                 cands = [x.hi for x in (a, b) if x.lo is not None and x.lo >= 0 and x.hi is not None]
                 if cands:
@@ -737,6 +763,21 @@ class Bounds:
                         fb = self._fact_bounds(op, r, point, depth)
                         nb = meet(bb, fb)
                         bb.lo, bb.hi, bb.ubs, bb.lbs = nb.lo, nb.hi, nb.ubs, nb.lbs
+            # arm is a narrowing cast of a variable the condition bounds: (len > K) ? K : (int) len  -- apply the fact before the cast
+            for arm, pol, bb in ((x, True, bx), (y, False, by)):
+                an = f.N[arm]
+                if an.get('k') in ('CStyleCastExpr', 'ImplicitCastExpr') and an.get('kids'):
+                    inner = f.unwrap(an)
+                    if inner.get('k') in ('DeclRefExpr', 'MemberExpr') and self._pure(inner):
+                        vb = None
+                        for (l, op, r) in self.guard_facts(c, pol):
+                            if r is not None and self._lv_str(l) == self._lv_str(inner):
+                                fb = self._fact_bounds(op, r, point, depth)
+                                vb = meet(vb if vb is not None else self._ev(inner, point, depth + 1), fb)
+                        if vb is not None and not vb.bot:
+                            cb = self._through_cast(vb, inner.get('t'), an.get('t'))
+                            nb = meet(bb, cb)
+                            bb.lo, bb.hi, bb.ubs, bb.lbs = nb.lo, nb.hi, nb.ubs, nb.lbs
             # constant arm under a condition that bounds another expression from below: c ? K : e with c == (X > K2), K <= K2  =>  K <= X
             for arm, pol, bb in ((x, True, bx), (y, False, by)):
                 cv = f.unwrap(f.N[arm]).get('v')
